@@ -55,6 +55,13 @@ region of the same mutex: the swap is atomic with respect to every other swap an
 def swapAtomic (l : List PqStep) : Bool :=
   syncView l == [.lock, .removeFoct, .replaceWs, .unlock, .rlock, .validate, .runlock]
 
+/-- the guard shape as three-valued datum: one writer region around both calls / one writer region per
+call / anything else (`0` / `1` / `2`; `Model/SuggRace.lean` turns it into `LockShape`) -/
+def lockShapeCode (l : List PqStep) : Nat :=
+  if syncView l == [.lock, .removeFoct, .replaceWs, .unlock, .rlock, .validate, .runlock] then 0
+  else if syncView l == [.lock, .removeFoct, .unlock, .lock, .replaceWs, .unlock, .rlock, .validate, .runlock] then 1
+  else 2
+
 /-- a document is stored only after the error return that follows `Validate` -/
 def addAfterValidation : List PqStep → Bool
   | [] => true
